@@ -34,16 +34,18 @@ Theorem C07_direction_sound : forall p old n ref ang,
 Proof. exact direction_sound. Qed.
 Print Assumptions C07_direction_sound.
 
-(* (T) every position added by the walk passed the geometric, milestone and direction tests *)
+(* (T) every position added by the walk passed the geometric, milestone and direction tests; the direction test is made
+   on the step itself, last_point + vector * step_length, not on the new point after it was wrapped into the box *)
 Theorem C07_restraints_guard_placement :
   (In "fulfill_geometrical_constraints(new_point, self.molecule.nodes[current_node])" accept_conjuncts /\
    In "self.checks_milestones(current_node, new_point, step_length)" accept_conjuncts /\
-   In "is_restricted(new_point, last_point, self.molecule.nodes[current_node])" accept_conjuncts /\
+   In "is_restricted(step_end, last_point, self.molecule.nodes[current_node])" accept_conjuncts /\
+   step_end_def = "last_point + vector_bundle[index] * step_length" /\
    In "constrained" first_accept_conjuncts /\
    constrained_def = "fulfill_geometrical_constraints(self.start, self.molecule.nodes[first_node])")%string.
 Proof.
   exact (conj (proj1 (proj2 gen_accept_guards)) (conj (proj1 (proj2 (proj2 gen_accept_guards)))
-        (conj (proj1 (proj2 (proj2 (proj2 gen_accept_guards)))) (conj (proj1 (proj2 gen_first_guards)) (proj1 (proj2 (proj2 gen_first_guards))))))).
+        (conj (proj1 (proj2 (proj2 (proj2 gen_accept_guards)))) (conj gen_step_end (conj (proj1 (proj2 gen_first_guards)) (proj1 (proj2 (proj2 gen_first_guards)))))))).
 Qed.
 Print Assumptions C07_restraints_guard_placement.
 
